@@ -49,6 +49,12 @@ CHECKS = {
             "untyped or query-carrying results are violations. Held on the executions produced.",
             "R4 is a second implementation of the statement; input classes the statement leaves open are counted as unspecified and not judged.",
             "runtime monitor on unfold_search + reference unfolding model over generated searches"),
+    "C08": ("exploration", "3 C08",
+            "every exhausted FindInList.find in the process (generator wrapper on Finder.find) is compared with the entries that an own "
+            "split-and-scan glob matcher (R5) matches against the observed unfolded forms, over generated universes materialised as four "
+            "list variants and searches that collide with them; Sid.match is compared with the same oracle. Held on the executions produced.",
+            "unfolded forms come from the real unfold_search (judged by C07); filters with URL metacharacters are not judged.",
+            "runtime monitor (generator wrapper) on Finder.find + reference glob matcher over generated lists"),
 }
 
 NOT_YET = {}
